@@ -134,11 +134,18 @@ func astProgram(p *parser.Program) string {
 	return "(" + strings.Join(parts, " ") + ")"
 }
 
+// c16ModelStrict selects which compiler model the real compiler is compared
+// with: false = compiler.go as it is on the unchanged tree (silent default
+// case), true = compile_fixed (after proposed_fixes/C16-unsupported-node-error.diff
+// is applied; then also replace C16_compile_rejects_unsupported_refuted by the
+// theorem for `compile`).
+const c16ModelStrict = false
+
 // c16ModelBytes compares the Compile.v model with the real compiler: bytes,
 // constants, GlobalCount, LocalCount (or the error class).
 func c16ModelBytes(src string, c c17Compiled, in map[string]any, r *Result, model *Model) {
 	ast := astProgram(c.prog)
-	ans, err := model.Ask("(compile false " + ast + ")")
+	ans, err := model.Ask(fmt.Sprintf("(compile %v %s)", c16ModelStrict, ast))
 	if err != nil {
 		r.Violate(Violation{Kind: "correspondence", Key: "model-crash", Detail: err.Error(), Input: in})
 		return
